@@ -404,6 +404,10 @@ class Pervaporation:
                 )
 
             feed_mass.append(feed_mass[step] - d_mass_1 - d_mass_2)
+            if not feed_mass[step + 1] > 0:
+                raise ValueError(
+                    "Feed is exhausted at step %s, reduce the step size" % step
+                )
 
             feed_composition.append(
                 Composition(
@@ -581,6 +585,10 @@ class Pervaporation:
             )
 
             feed_mass.append(feed_mass[step] - d_mass_1 - d_mass_2)
+            if not feed_mass[step + 1] > 0:
+                raise ValueError(
+                    "Feed is exhausted at step %s, reduce the step size" % step
+                )
 
             feed_composition.append(
                 Composition(
@@ -601,6 +609,11 @@ class Pervaporation:
             else:
                 feed_temperature.append(
                     conditions.temperature_program.program(time[step] + delta_hours)
+                )
+            if not 0 < feed_temperature[step + 1] < numpy.inf:
+                raise ValueError(
+                    "Feed temperature %s K is not physical at step %s"
+                    % (feed_temperature[step + 1], step)
                 )
 
         feed_mass.pop(-1)
@@ -1118,6 +1131,10 @@ class Pervaporation:
                 )
 
             feed_mass.append(feed_mass[step] - d_mass_1 - d_mass_2)
+            if not feed_mass[step + 1] > 0:
+                raise ValueError(
+                    "Feed is exhausted at step %s, reduce the step size" % step
+                )
 
             feed_composition.append(
                 Composition(
@@ -1438,6 +1455,10 @@ class Pervaporation:
             )
 
             feed_mass.append(feed_mass[step] - d_mass_1 - d_mass_2)
+            if not feed_mass[step + 1] > 0:
+                raise ValueError(
+                    "Feed is exhausted at step %s, reduce the step size" % step
+                )
 
             feed_composition.append(
                 Composition(
@@ -1458,6 +1479,11 @@ class Pervaporation:
             else:
                 feed_temperature.append(
                     conditions.temperature_program.program(time[step] + delta_hours)
+                )
+            if not 0 < feed_temperature[step + 1] < numpy.inf:
+                raise ValueError(
+                    "Feed temperature %s K is not physical at step %s"
+                    % (feed_temperature[step + 1], step)
                 )
 
             permeances.append(
